@@ -71,7 +71,7 @@ def jobs(tier, seed, report):
     allq = ps + facts
     report.bounds = {'magnitudes': 'unbounded symbolic rationals', 'units': f'{len(ps)} literal units (14-unit basis, prefixed / powered / quotient variants, the plain number) + {len(facts)} distinct units of the {nconst} shipped constants',
                      'triples': ('seeded sample: 260 triples for the multiplicative laws plus 48 of the 128 directed partial-reconstruction triples (btu, hour at powers 1, 2, -1 and kg/D), 200 same-dimension triples for the additive and distributive laws' if tier == 'quick' else 'all same-dimension triples; 3000 seeded triples for the multiplicative laws plus all 128 directed partial-reconstruction triples')}
-    report.outside = ['offset temperature scales (C09)', 'that a fact phrase finds its constant (C16, not applicable)', 'quantities with more than the units listed']
+    report.outside = ['sums and differences that involve an offset temperature scale (conversions of those scales: C09; in products they are covered, read as intervals)', 'that a fact phrase finds its constant (C16, not applicable)', 'quantities with more than the units listed']
     report.assumptions = ['BigRational exact (SMT Real, nonlinear)', 'declared unit scales (checked against the standards in C05)', 'a looked-up fact is a quantity with one of the shipped units and an arbitrary value']
     report.models_used = ['num', 'coll', 'core']
     report.required_witnesses = ['add-commutes', 'mul-commutes', 'add-associates', 'mul-associates', 'distributes', 'self-difference-zero', 'self-quotient-one', 'fact-unit-in-law', 'incompatible-refused-both-ways']
@@ -83,6 +83,14 @@ def jobs(tier, seed, report):
         for t in itertools.product(qs, repeat=3): same.append(t)
     rnd.shuffle(same)
     mult = [tuple(rnd.choice(allq) for _ in range(3)) for _ in range(260 if tier == 'quick' else 3000)]
+    # zero-point scales (°C, °F) in PRODUCTS: the purely multiplicative laws only (sums that mix a zero-point scale with
+    # kelvin have no reading under which they commute; conversions of such scales are C09)
+    OFF = [ul.resolve(I, n) for n in ul.OFFSET_UNITS]
+    So = [[(OFF[0], 1, 0)], [(OFF[1], 1, 0)], [(ul.resolve(I, 'Meter'), 1, 0)], [(ul.resolve(I, 'Kelvin'), 1, 0)], [(OFF[0], 1, 0), (ul.resolve(I, 'Second'), -1, 0)]]
+    offm = [t for t in itertools.product(So, repeat=3) if any(U.is_offset(u) for q in t for u, _, _ in q)]
+    rnd.shuffle(offm)
+    if tier == 'quick': offm = offm[:40]
+    for i in range(0, len(offm), 4): js.append({'name': f'offsetmult-{i}', 'kind': 'offsetmult', 'triples': offm[i:i + 4]})
     part = partial_families(I); rnd.shuffle(part)
     mult = (part[:48] if tier == 'quick' else part) + mult
     mixed = [tuple(rnd.choice(allq) for _ in range(2)) for _ in range(60)]
@@ -106,7 +114,9 @@ def op(I, name, a, b):
     return (v, [(u, I.concretize(p, what='power'), I.concretize(f, what='prefix')) for u, p, f in R])
 
 def si(I, q):
-    return mnum.rmul(q[0], ul.F_of(I, q[1])), U.dims_of_compound(q[1])
+    # a zero-point scale inside a product counts with the size of its degree (interval reading, as C09 states it)
+    sc = lambda u: U.scale_of(u) if U.is_offset(u) else ul.declared_scale(I, u)[1]
+    return mnum.rmul(q[0], ul.F_of(I, q[1], sc)), U.dims_of_compound(q[1])
 
 def run_job(job, res, prefixes, budget, deadline):
     I = harness.interp_for('dev', {'pow_bound': 80})
@@ -178,6 +188,11 @@ def run_job(job, res, prefixes, budget, deadline):
                 law('a*(b+c) = a*b + a*c', t, lambda I, a, b, c: op(I, 'mul', a, op(I, 'add', b, c)), lambda I, a, b, c: op(I, 'add', op(I, 'mul', a, b), op(I, 'mul', a, c)), 'distributes')
             t2 = (t[0], t[1], t[1])
             law('a*(b+c) = a*b + a*c', t2, lambda I, a, b, c: op(I, 'mul', a, op(I, 'add', b, c)), lambda I, a, b, c: op(I, 'add', op(I, 'mul', a, b), op(I, 'mul', a, c)), 'distributes')
+    elif k == 'offsetmult':
+        for t in job['triples']:
+            law('a*b = b*a', t, lambda I, a, b, c: op(I, 'mul', a, b), lambda I, a, b, c: op(I, 'mul', b, a), 'mul-commutes')
+            law('(a*b)*c = a*(b*c)', t, lambda I, a, b, c: op(I, 'mul', op(I, 'mul', a, b), c), lambda I, a, b, c: op(I, 'mul', a, op(I, 'mul', b, c)), 'mul-associates')
+            law('(a/b)*c = a/(b/c)', t, lambda I, a, b, c: op(I, 'mul', op(I, 'div', a, b), c), lambda I, a, b, c: op(I, 'div', a, op(I, 'div', b, c)), 'mul-associates', guard=lambda x, y, z: z3.And(y != 0, z != 0))
     elif k == 'mixed':
         for p in job['pairs']:
             law('a+b = b+a', p, lambda I, a, b, c: op(I, 'add', a, b), lambda I, a, b, c: op(I, 'add', b, a), 'add-commutes')
